@@ -1,6 +1,12 @@
 """C16 - a server pins one username per connection and caps failed attempts.
 
 Tested side: server-mode Transport + RecordingServer with a generated verdict per method.
+The application's policy has two independent generated parts: what its check_auth_* callbacks ANSWER (verdict per method /
+per message) and what its get_allowed_auths ADVERTISES - the full list, the stock ServerInterface answer ("password"), a
+single method, the empty list, a generated subset, or a staged list that changes from call to call. The two need not agree
+(a server may evaluate methods it does not advertise; "none" is practically never advertised): the statement counts failed
+ATTEMPTS, whatever the method and whether or not it is on offer. Requests naming a method the server does not implement
+("hostbased", a made-up name; judged by check_auth_none like "none") are part of the method alphabet.
 A raw puppet client sends a generated sequence (<= 40) of authentication messages: USERAUTH_REQUESTs
 over usernames {a, b, ""}, services {ssh-connection, ssh-userauth, x}, methods {none, password,
 password-change, publickey probe, publickey with a valid signature, keyboard-interactive,
@@ -42,7 +48,9 @@ Oracle clauses (each with its own signature):
  disconnect-before-ten-failures  DISCONNECT(NO_MORE_AUTH_METHODS) although fewer than ten non-partial
                                  failures were answered and no username/service change occurred
 A violating history that contains key re-exchanges is run again without them; if the clause then holds, the re-exchange
-belongs to the root cause and the bucket ends in ":only-with-key-re-exchange-in-the-history".
+belongs to the root cause and the bucket ends in ":only-with-key-re-exchange-in-the-history". Likewise a violating history
+whose application advertises less than the full method list is run again with the full list
+(":only-when-get_allowed_auths-advertises-less-than-the-full-list").
 """
 from hypothesis import strategies as st
 
@@ -54,8 +62,9 @@ PROPERTY = "C16"
 LEVEL = "exploration"
 THOROUGH_WORKERS = 16
 RULE = (
-    "hypothesis-generated message sequences (1..40) over 3 usernames x 3 services x 8 methods (incl. gssapi-with-mic / gssapi-keyex "
-    "on a stub context) plus INFO_RESPONSE messages and repeated SERVICE_REQUESTs (ssh-userauth again; rarely a foreign name, which ends the "
+    "hypothesis-generated message sequences (1..40) over 3 usernames x 3 services x 9 methods (incl. gssapi-with-mic / gssapi-keyex "
+    "on a stub context and method names the server does not implement) with a generated get_allowed_auths policy independent of the callback "
+    "verdicts (full list / stock 'password' / one method / empty / generated subset / staged list changing per call) plus INFO_RESPONSE messages and repeated SERVICE_REQUESTs (ssh-userauth again; rarely a foreign name, which ends the "
     "generated sequence) and complete key re-exchanges (client- or server-initiated; one element in 5..10, several per connection possible) "
     "between requests and inside exchanges, with generated callback verdicts (FAILED/PARTIAL/SUCCESSFUL per method and "
     "password; per message for keyboard-interactive requests and INFO_RESPONSEs, incl. further InteractiveQuery rounds); sequences are "
@@ -64,11 +73,16 @@ RULE = (
     "before every attempt with the username changing at a generated point), each run "
     "one-by-one or pipelined; compared with a model of the statement that counts a FAILED result whichever message delivered it and keeps "
     "the pinned username and the failure count across repeated service requests and across key re-exchanges; "
-    "non-trivial = the model reaches a username switch, a foreign service or ten failures; distinct by (policy, mode, sequence)"
+    "non-trivial = the model reaches a username switch, a foreign service or ten failures; distinct by (policy, advertised list, mode, sequence)"
 )
 
 RES = {"F": peers.AUTH_FAILED, "P": peers.AUTH_PARTIALLY_SUCCESSFUL, "S": peers.AUTH_SUCCESSFUL}
-METHODS = ["none", "password", "pwchange", "pkprobe", "pksigned", "kbd", "gssmic", "keyex"]
+METHODS = ["none", "password", "pwchange", "pkprobe", "pksigned", "kbd", "gssmic", "keyex", "other"]
+OTHER_NAMES = ("hostbased", "x-verif@example.org")
+# what get_allowed_auths may advertise (independent of what the callbacks answer)
+ALL_ADV = ["password", "publickey", "keyboard-interactive", "gssapi-with-mic", "gssapi-keyex", "none"]
+FULL_ADV = ",".join(ALL_ADV)
+ADV_NAME = {"none": "none", "password": "password", "pwchange": "password", "pkprobe": "publickey", "pksigned": "publickey", "kbd": "keyboard-interactive", "resp": "keyboard-interactive", "gssmic": "gssapi-with-mic", "keyex": "gssapi-keyex"}
 SERVICES = ["ssh-connection", "ssh-userauth", "x"]
 USERS = ["a", "b", ""]
 CB = {
@@ -88,7 +102,16 @@ MAXLEN = 40
 
 
 def req_st(users, services, methods, kbd_r):
-    return st.fixed_dictionaries({"u": users, "svc": services, "m": methods, "pw": st.sampled_from(["good", "bad"]), "r": kbd_r})
+    return st.fixed_dictionaries({"u": users, "svc": services, "m": methods, "pw": st.sampled_from(["good", "bad"]), "r": kbd_r, "o": st.integers(0, len(OTHER_NAMES) - 1)})
+
+
+_adv_one = st.one_of(
+    st.just(FULL_ADV),
+    st.sampled_from(["password", "publickey", "publickey,password", "keyboard-interactive", ""]),
+    st.lists(st.sampled_from(ALL_ADV), unique=True, max_size=4).map(",".join),
+)
+# one list for the whole connection, or a staged one (the k-th call of get_allowed_auths answers allowed[k % len])
+allowed_st = st.one_of(_adv_one.map(lambda a: [a]), _adv_one.map(lambda a: list((a,))), st.lists(_adv_one, min_size=2, max_size=3))
 
 
 def resp_st(r):
@@ -186,7 +209,7 @@ def cases(draw):
         any_ = req_st(st.sampled_from(USERS), st.sampled_from(SERVICES), meth, r)
         btw = _with_svcreq(any_, 6)
         reqs = _flat(draw(st.lists(_with_svcreq(st.one_of(any_, any_, any_, any_, resp_st(r), exchange(any_, btw, r), exchange(any_, btw, r)), 6), min_size=1, max_size=20)))
-    return {"policy": pol, "gss": draw(st.booleans()), "pipelined": draw(st.booleans()), "reqs": reqs}
+    return {"policy": pol, "allowed": draw(allowed_st), "gss": draw(st.booleans()), "pipelined": draw(st.booleans()), "reqs": reqs}
 
 
 # ----------------------------------------------------------------------------- model
@@ -254,7 +277,8 @@ def model(case):
         else:
             pinned = rq["u"]
             gss_open = False
-            if m in ("gssmic", "keyex") and not gss:
+            if (m in ("gssmic", "keyex") and not gss) or m == "other":
+                # a method the server does not offer / implement is judged like "none"
                 e["cbs"].append((CB["none"], rq["u"]))
                 v = pol["none"]
             elif m == "gssmic":
@@ -269,6 +293,7 @@ def model(case):
         if v == "F":
             fails += 1
             e["by"] = "info-response" if m == "resp" else "request"
+            e["failed_method"] = OTHER_NAMES[rq.get("o", 0) % len(OTHER_NAMES)] if m == "other" else ADV_NAME.get(m, m)
             if fails >= 10:
                 dead, e["cause"] = True, "cap"
         elif v == "S":
@@ -305,7 +330,25 @@ def make_policy(case):
         "check_auth_interactive_response": lambda responses: planned(responses[0] if responses else ""),
         "check_auth_gssapi_keyex": lambda u, g: RES[pol.get("keyex", "F")],
         "enable_auth_gssapi": bool(case.get("gss")),
+        "get_allowed_auths": _advertiser(case),
     }
+
+
+def _allowed(case):
+    """Histories saved before the advertised list was generated ran with the full list."""
+    return list(case.get("allowed") or [FULL_ADV])
+
+
+def _advertiser(case):
+    lists = _allowed(case)
+    n = [0]
+
+    def get_allowed_auths(username):
+        v = lists[n[0] % len(lists)]
+        n[0] += 1
+        return v
+
+    return get_allowed_auths
 
 
 def payload(s, rq, pol):
@@ -325,6 +368,8 @@ def payload(s, rq, pol):
         return A.req_gss_mic(u, (A.KRB5_OID,), svc)
     if m == "keyex":
         return A.req_gss_keyex(u, b"mic-token", svc)
+    if m == "other":
+        return A.req_other(u, OTHER_NAMES[rq.get("o", 0) % len(OTHER_NAMES)], b"", svc)
     kb = A.pub_blob("ed25519")
     if m == "pkprobe":
         return A.req_pk_probe(u, "ssh-ed25519", kb, svc)
@@ -352,6 +397,22 @@ def _desc(rq):
 def evidence_classes(case, mdl, classes):
     """Which of the generated dimensions the (modelled) history really exercised."""
     live = [(rq, e) for rq, e in zip(case["reqs"], mdl) if e["live"] and not e["skip"]]
+    # what the application advertises vs. which methods delivered the failures
+    lists = _allowed(case)
+    adv = [set(x for x in a.split(",") if x) for a in lists]
+    if len(lists) > 1:
+        classes.add("advertised:staged-list")
+    for a in lists:
+        classes.add("advertised:" + ("full-list" if a == FULL_ADV else "stock-password-only" if a == "password" else "nothing" if a == "" else "without-none" if "none" not in a.split(",") else "subset-with-none"))
+    unadv = [x for _, x in live if x.get("failed_method") and not all(x["failed_method"] in a for a in adv)]
+    if unadv:
+        classes.add("failure-by-method-not-advertised")
+        if any(x["failed_method"] == "none" for x in unadv):
+            classes.add("failure-by-unadvertised-none-request")
+        if any(x["failed_method"] not in ("none",) + OTHER_NAMES for x in unadv):
+            classes.add("failure-by-unadvertised-real-method")
+        if any(x["cause"] == "cap" for _, x in live):
+            classes.add("model:cap-reached-with-unadvertised-method-failures")
     for rq, e in live:
         if e["by"]:
             classes.add("failure-delivered-by:" + e["by"])
@@ -447,31 +508,49 @@ class _Capture:
 
 
 REKEY_BUCKET = ":only-with-key-re-exchange-in-the-history"
+ADV_BUCKET = ":only-when-get_allowed_auths-advertises-less-than-the-full-list"
 
 
 def _has_rekey(case):
     return any(rq["m"] == "rekey" for rq in case["reqs"])
 
 
+def _narrow_adv(case):
+    return _allowed(case) != [FULL_ADV]
+
+
+# (applies to a history?, simplified history, bucket suffix when the simplification makes the clause hold)
+REDUCTIONS = (
+    (_has_rekey, lambda c: dict(c, reqs=[rq for rq in c["reqs"] if rq["m"] != "rekey"]), REKEY_BUCKET),
+    (_narrow_adv, lambda c: dict(c, allowed=[FULL_ADV]), ADV_BUCKET),
+)
+
+
 def run_case(ctx, case, record=True):
-    """Execute + report. A violating history that contains key re-exchanges is run again without them: if the same
-    clause still fails, that shorter history is what gets reported; if not, the re-exchange is part of the root cause
-    and the bucket says so (REKEY_BUCKET - on replay: whenever the stored history contains one)."""
+    """Execute + report. A violating history that contains key re-exchanges is run again without them, one whose
+    application advertises less than the full method list is run again with the full list: if the same clause still
+    fails, the simpler history is what gets reported; if not, that ingredient is part of the root cause and the bucket
+    says so (REKEY_BUCKET / ADV_BUCKET - on replay: whenever the stored history contains the ingredient)."""
     cap = _Capture(ctx)
     execute_case(cap, ctx, case, record)
     if cap.v is None:
         return
     clause, bucket, sub, detail = cap.v
-    if _has_rekey(sub):
+    suffix = ""
+    cur = case
+    for applies, simplify, sfx in REDUCTIONS:
+        if not applies(sub):
+            continue
         if not ctx.replaying:
-            red = dict(case, reqs=[rq for rq in case["reqs"] if rq["m"] != "rekey"])
+            red = simplify(cur)
             cap2 = _Capture()
             execute_case(cap2, ctx, red, False)
             if cap2.v is not None and cap2.v[0] == clause:
-                ctx.violation(*cap2.v)
-                return
-        bucket += REKEY_BUCKET
-    ctx.violation(clause, bucket, sub, detail)
+                cur = red
+                clause, bucket, sub, detail = cap2.v
+                continue
+        suffix += sfx
+    ctx.violation(clause, bucket + suffix, sub, detail)
 
 
 def execute_case(cap, ctx, case, record=True):
@@ -509,7 +588,7 @@ def _check_block(ctx, case, mdl, lo, hi, calls, replies, dead, authed, s, wire):
     Returns False after reporting a violation."""
     last = mdl[hi - 1]
     pinned = last["pinned"]
-    detail = "messages %d..%d of %r (pipelined=%s, gss=%s): callbacks %r; replies %s; transport active=%s authenticated=%s; model after the block: dead=%s cause=%r failed-results=%d authed=%s" % (
+    detail = "advertised by get_allowed_auths: %r; " % (_allowed(case),) + "messages %d..%d of %r (pipelined=%s, gss=%s): callbacks %r; replies %s; transport active=%s authenticated=%s; model after the block: dead=%s cause=%r failed-results=%d authed=%s" % (
         lo,
         hi - 1,
         [_desc(r) for r, e in zip(case["reqs"][lo:hi], mdl[lo:hi]) if not e["skip"]],
